@@ -274,9 +274,10 @@ def check_doc(nodes, src, case, res):
                     ('args-swap-then-copy-construct', None), ('args-delete-then-copy-construct', None)]
             if na >= 3:
                 pool.append(('args-permute', tuple([1, 2, 0] + list(range(3, na)))))
-            ops.append(pool[k % len(pool)])
-            ops.append(pool[(k + 3) % len(pool)])
-            ops.append(pool[(k + 7) % len(pool)])
+            base = len(src) * 7 + k * 5          # rotate through the whole pool across documents and targets
+            ops.append(pool[base % len(pool)])
+            ops.append(pool[(base + 3) % len(pool)])
+            ops.append(pool[(base + 7) % len(pool)])
         k += 1
         for op, arg in ops:
             ecase = dict(case, op=op, arg=arg, target=n.span[0])
